@@ -913,6 +913,22 @@ def eval_walk(fn, start_block, atom_env=None, tree_env=None, limit=400, max_path
     return results
 
 
+def eval_predicate(body, tree_env):
+    """Value a (small, side-effect free) predicate function returns under an environment of canonical texts ->
+    values: its CFG is walked with the environment deciding the branches, the returned expression is evaluated with
+    single-definition locals replaced by their initialisers.  None if some path is not decided.  'return a > (c ? 1 : 0)'
+    and 'n = a; if (c) return n > 1; return n > 0;' evaluate alike."""
+    vals = set()
+    for evs, end in eval_walk(body, body.entry, tree_env=tree_env):
+        if end != "return" or evs[-1][2].get("e") is None:
+            return None
+        try:
+            vals.add(bool(eval_tree(expand_locals(body, evs[-1][2]["e"]), tree_env)))
+        except Unknown:
+            return None
+    return vals.pop() if len(vals) == 1 else None
+
+
 def cond_leaves(fn, blocks=None):
     """All (block, atom, positive) condition leaves of two-way branches."""
     out = []
